@@ -99,7 +99,7 @@ func checkC17(c *Ctx, r *Report) {
 	r.Explanation = "W-BITS: for the typed SEI messages with a serialiser (time code 136, mastering display 137, content light level 144) the decoder is executed on a symbolic payload under every configuration of its flags/counts, " +
 		"the message's Payload() is executed on the decoded value and compared bit by bit with what was read (plus rbsp trailing bits), and 8*Size() equals the number of bits Payload() writes; " +
 		"(O-RESTORE) the look-ahead EBSPReader.MoreRbspData restores every reader field that Read modifies (bit buffer, position AND the emulation-prevention zero counter); " +
-		"(O-FFRUN) the writer of the 0xFF-run coded type/size keeps emitting 0xFF while the remainder is >= 255; (O-SEIW) WriteSEIMessages writes, per message, Type(), Size() and then exactly the bytes of Payload(); pass-through messages return their stored payload. " +
+		"(R3) the Decode*/Parse* functions of sei, avc and hevc store only into memory they allocated (not through pointer parameters: a decoder that fills a caller-supplied structure makes successive messages alias each other); (O-EPB) the emulation-prevention writer inserts 0x03 before every byte 0..3 that follows two zero bytes; (O-FFRUN) the writer of the 0xFF-run coded type/size keeps emitting 0xFF while the remainder is >= 255; (O-SEIW) WriteSEIMessages writes, per message, Type(), Size() and then exactly the bytes of Payload(); pass-through messages return their stored payload. " +
 		"Does not decide emulation prevention itself or trailing-bit detection arithmetic (C13 territory), nor the AVC pic-timing message whose layout depends on external HRD parameters."
 	wireAssumptions(r)
 	for _, sp := range seiCodecs {
@@ -108,6 +108,10 @@ func checkC17(c *Ctx, r *Report) {
 	r.Floor("W-BITS", 3)
 	ruleRestore(c, r, "bits", "EBSPReader", "Read", "MoreRbspData")
 	ruleFFRun(c, r)
+	ruleEPB(c, r)
+	if n := rulePureInputs(c, r, map[string]bool{"sei": true, "avc": true, "hevc": true}); n < 35 {
+		r.Undecided("R3", "scope", "", fmt.Sprintf("only %d decoders found", n))
+	}
 	// O-SEIW
 	if f := c.ssaFunc(r, "O-SEIW", "sei", "WriteSEIMessages"); f != nil {
 		ty := callsIn(f, "iface.Type", false)
@@ -175,7 +179,7 @@ func checkC18(c *Ctx, r *Report) {
 	r.Explanation = "T-INV: aac.FrequencyTable and aac.ReverseFrequencies are mutual inverses (decided completely from the two literals); " +
 		"W-BITS: DecodeAudioSpecificConfig is executed on a symbolic bit stream under every configuration (object types, all 16 frequency indices incl. the 24-bit escape, SBR extension), " +
 		"AudioSpecificConfig.Encode is executed on the decoded value and compared bit by bit with what was read; " +
-		"(DEP) SetAACDescriptor builds the esds DecSpecificInfo from the encoded configuration and the sample entry from the same configuration. " +
+		"(W-TRUNC) in mp4 and aac no value narrowed to 8/16 bits for one destination is widened again and used in place of the original (sampling frequencies above 65535); (DEP) SetAACDescriptor builds the esds DecSpecificInfo from the encoded configuration and the sample entry from the same configuration. " +
 		"ADTS (sync search loop) is covered only by T-INV; numeric exhaustiveness over the domain belongs to another technique family."
 	wireAssumptions(r)
 	ruleTINV(c, r, "aac", "FrequencyTable", "ReverseFrequencies")
@@ -183,6 +187,11 @@ func checkC18(c *Ctx, r *Report) {
 		reportCodec(r, c, analyseCodec(c, sp))
 	}
 	ruleAscArms(c, r)
+	ruleTruncReuse(c, r, "W-TRUNC", func(f *ssa.Function) bool {
+		n := SSAFuncName(f)
+		return strings.HasPrefix(n, "mp4.") || strings.HasPrefix(n, "aac.")
+	})
+	requireFixture(r, "W-TRUNC", "truncReuse", func(fc *Ctx, s *Report) { ruleTruncReuse(fc, s, "W-TRUNC", nil) })
 	if f := c.ssaFunc(r, "DEP", "mp4", "TrakBox.SetAACDescriptor"); f != nil {
 		esds := callsIn(f, "mp4.CreateEsdsBox", false)
 		if len(esds) != 1 {
